@@ -223,7 +223,8 @@ func Verify(opts Options) int {
 		}
 	}
 	for _, r := range rr.Results {
-		ok := r.V.Status == "discharged" || r.V.Status == "covered" || r.V.Status == "covered-unknown"
+		ok := r.V.Status == "discharged" || r.V.Status == "covered" || r.V.Status == "covered-unknown" ||
+			(r.V.Status == "vacuous" && strings.Contains(r.O.Name, "#cover.return."))
 		if !ok {
 			bad++
 		}
